@@ -36,6 +36,12 @@ CHECKS = {
         note='Positions are produced by the renderer or re-read from the source; bounds as in C03/C14.',
         technique='bounded exhaustive enumeration of rendered models and noisy documents with position oracles',
         ref='2/C04', engine='E5'),
+    'C05': dict(
+        text='Finite spaces swept completely: 80 dialects x 1126 distinct keyword strings x 6 matcher entry points x 4 layouts against the reference lexer; every listed keyword of every dialect end to end (as default dialect and via header) with keyword/language/keywordType assertions; '
+             'every foreign keyword in a description position; all first-line strings of <= 4/5 symbols over a 12-symbol header alphabet and all <= 4-line prefixes over {comment, blank, header(fr), header(no), tag} before en/fr/no feature lines; byte comparison of the two language tables.',
+        note='Header strings longer than the bound are not covered; the reference lexer reads the master language table.',
+        technique='complete sweep of a finite configuration space plus bounded exhaustive string enumeration against a reference lexer',
+        ref='2/C05', engine='E8'),
     'C06': dict(
         text='Complete cross product of document shapes (feature background x lists of scenario variants covering 0..2 steps and every examples shape x lists of rules) '
              'compiled via the AST route (dictionaries computed from the model) and the parser route; pickles compared one-to-one, in order, with a direct count oracle and the reference compiler (name, uri, language, astNodeIds).',
@@ -85,6 +91,12 @@ CHECKS = {
         note='Reference lexer/machine/builder are self-tested against the whole shared acceptance corpus on every run; texts longer than the bound are not covered.',
         technique='bounded exhaustive enumeration of documents from every control state against a reference model',
         ref='2/C14', engine='E4'),
+    'C19': dict(
+        text='Complete sweep of 80 dialects x every title keyword x header depth 1..7 x indentation x separator x title and every step keyword x 7 bullet forms x spacing x indentation, table rows at indentation 0..8 (space/tab) over 7 cell forms, '
+             'tag lines with 0..3 back-quoted tags and interleaved words, against a hand-written regex-free reference for return value, type, keyword, text and column.',
+        note='Line-level only, as the property states; mixed separator/data rows are unspecified and skipped.',
+        technique='complete sweep of a finite configuration space against a reference matcher',
+        ref='2/C19', engine='E8'),
     'C18': dict(
         text='Token delivery oracle (each physical line exactly once, in order, with its number, then one EOF; delivered xor reported-unexpected for rejected documents) '
              'on every kind sequence of length <= L through the real parse loop, on all look-ahead words TagLine r1 t1 r2 t2 from each of the states with a look-ahead '
@@ -131,6 +143,8 @@ def main():
              'kind_free_text': 'generative document models: intent -> text -> expected AST with positions and ids; structure and deviation enumerators'},
             {'name': 'E6', 'path': 'mc/checks/c12.py mc/checks/c09.py', 'serves_properties': ['C12', 'C09'],
              'kind_free_text': 'character-level enumerators over class alphabets against explicit reference automata'},
+            {'name': 'E8', 'path': 'mc/checks/c05.py mc/checks/c19.py', 'serves_properties': ['C05', 'C19'],
+             'kind_free_text': 'complete sweeps of finite configuration spaces (dialect x keyword x role x layout)'},
             {'name': 'E4', 'path': 'mc/ref.py mc/impl.py mc/docspace.py', 'serves_properties': ['C01', 'C03', 'C04', 'C14', 'C16', 'C18'],
              'kind_free_text': 'independent reference lexer/machine/builder/compiler (self-tested on the acceptance corpus) and bounded document spaces from every control state'},
         ],
